@@ -180,7 +180,9 @@ class DeclStream(Stream):
             mod = sol.solve()
             if sorted(p.name for p in mod.pin_dic) != sorted(names):
                 raise ValueError("exposed names differ")
-            obs = netlib.obs_matrix_lit(netlib.observe_expo(mod, names))
+            # half of the cases read the result through the named view S2PD() (rows / columns labelled with pin names)
+            view = netlib.observe_s2pd if d.get("perm_seed", 0) % 2 else netlib.observe_expo
+            obs = netlib.obs_matrix_lit(view(mod, names))
         except Exception:
             obs = "Raised"
         return netlib.net_case_lit(full, obs)
